@@ -91,7 +91,8 @@ class ByteReader(object):
                     raise Unsupported('symbolic cut inside a single byte')
                 need = 0
                 break
-        return SBytes(out)
+        r = SBytes(out)
+        return r.concrete() if r.is_concrete() else r
 
 
 class OutSocket(object):
